@@ -84,6 +84,18 @@ func hashOpts(name string) ([]backend.ProverOption, []backend.VerifierOption) {
 		[]backend.VerifierOption{backend.WithVerifierChallengeHashFunction(h()), backend.WithVerifierKZGFoldingHashFunction(h()), backend.WithVerifierHashToFieldFunction(h())}
 }
 
+// recHash records every digest it produces.
+type recHash struct {
+	hash.Hash
+	sums [][]byte
+}
+
+func (r *recHash) Sum(b []byte) []byte {
+	out := r.Hash.Sum(b)
+	r.sums = append(r.sums, append([]byte(nil), out...))
+	return out
+}
+
 type genuine struct {
 	g        *zk.Plonk
 	q        *big.Int
@@ -260,7 +272,31 @@ func run(c Case, rec *ev.Recorder) ev.Outcome {
 		applied++
 		classes = append(classes, "variant:"+v.Kind+":"+v.Op, fmt.Sprintf("cell:%s:commit=%v", v.Kind, nc > 0))
 	}
-	// mismatched options must not verify either (the transcript differs)
+	// Fiat-Shamir binding: the verifier's first challenge must depend on the public inputs.
+	// (A verifier whose transcript ignores them still rejects a plain replay through PI(zeta),
+	// but is open to adaptive forgeries that single edits of a genuine proof do not build; the
+	// dependence itself is observable with a recording challenge hash.)
+	if len(G.pub) > 0 && c.Hashes == "default" {
+		first := func(pub []*big.Int) []byte {
+			r := &recHash{Hash: sha256.New()}
+			_ = zk.VerifyPlonk(G.proof, g.VK, mkPub(q, pub), backend.WithVerifierChallengeHashFunction(r))
+			if len(r.sums) == 0 {
+				return nil
+			}
+			return r.sums[0]
+		}
+		alt := make([]*big.Int, len(G.pub))
+		for i := range alt {
+			alt[i] = new(big.Int).Set(G.pub[i])
+		}
+		k := len(c.Variants) % len(alt)
+		alt[k].Add(alt[k], big.NewInt(1)).Mod(alt[k], q)
+		a, b := first(G.pub), first(alt)
+		if a != nil && b != nil && bytes.Equal(a, b) {
+			return ev.Outcome{Violation: fmt.Sprintf("the verifier derives the same first challenge for public inputs %v and %v: the Fiat-Shamir transcript does not bind the public inputs", G.pub, alt)}
+		}
+		classes = append(classes, "fs-binding-checked")
+	}
 	return ev.Outcome{NonTrivial: applied > 0, Classes: classes}
 }
 
